@@ -25,6 +25,11 @@ def run(ctx, res):
     dedup_rule(ctx, res)
     visitor_rule(ctx, res)
     C16.de_rule(ctx, res, only={"any"}, rule="C17.de.value")
+    # "duplicate keys collapse to the first position holding the last value" is what Object::insert does, if it is right:
+    # C06.model restricted to insert (the entries afterwards, the removed entries, the index exact again)
+    from . import C06
+    res.rules_run.append("C17.insert (Object::insert on every small object: the first entry with the key is replaced in place, the other entries with that key are removed, the rest keeps its order, the key index is exact afterwards - C06.model restricted to insert)")
+    C06.model_rule(ctx, res, rule="C17.insert", ops={"insert"})
     res.notes.append("not decided: which number spellings survive (integer syntax beyond 64 bits or with an exponent fails with 'number too large'; > 19 significant digits may be one ulp off) — numeric behaviour of json-number")
     res.trusted += ["json-number's Serialize / Deserializer for NumberBuf", "serde's blanket impls", "smallstr's PartialEq<str>"]
 
